@@ -142,6 +142,27 @@ def areas(rg):
     return out
 
 
+def malformed(rg):
+    """Areas of a result that are not rectangles (corners out of order) or whose name does not read back to themselves."""
+    out = []
+    for a in rg.ranges:
+        try:
+            r1, r2, n1, n2 = int(a['r1']), int(a['r2']), int(a['n1']), int(a['n2'])
+        except (TypeError, ValueError):
+            out.append(a.get('name'))
+            continue
+        if (r1 or r2) and (r1 > r2 or n1 > n2):
+            out.append(a.get('name'))
+            continue
+        try:
+            b = sut.Ranges().push(a['name']).ranges[0]
+            if (int(b['r1']), int(b['r2']), int(b['n1']), int(b['n2'])) != (r1, r2, n1, n2):
+                out.append(a.get('name'))
+        except Exception:  # noqa
+            out.append(a.get('name'))
+    return out
+
+
 def area_multiset(rg, N=None):
     cnt = collections.Counter()
     for a in areas(rg):
@@ -398,6 +419,9 @@ def check_multi(case):
     # difference: exactly the cells of a that are not in b
     D = build(case['a'], sa) - build(case['b'], sb, values=False)
     unchanged('sub')
+    for op_, res_ in (('or', U), ('and', I), ('sub', D)):
+        if malformed(res_):
+            bad(op_, 'malformed-area', 'areas %s' % area_names(res_))
     cd = area_multiset(D)
     want = {(s.upper(), c, r) for s, c, r in set(A) - set(B)}
     if set(cd) != want:
@@ -417,6 +441,26 @@ def check_multi(case):
     except Exception as ex:  # noqa
         if sa == sb or type(ex).__name__ != 'InvalidRangeError':
             bad('add', 'raised', '%s: %s' % (type(ex).__name__, ex))
+    # an operator result is an operand like any other: (a : b) - a, (a : b) & b, (a b) - ... on one sheet
+    if sa == sb:
+        try:
+            S2 = build(case['a'], sa, values=False) + build(case['b'], sb, values=False)
+            for nm_, other, O_ in (('a', case['a'], A), ('b', case['b'], B)):
+                D2 = S2 - build(other, sa, values=False)
+                if malformed(D2):
+                    bad('sub-of-range-result', 'malformed-area', '(a:b) - %s -> areas %s' % (nm_, area_names(D2)))
+                    continue
+                cd2 = area_multiset(D2)
+                want2 = {(sa.upper(), c, r) for (s_, c, r) in set(rect_cells(bb, sa)) - set(O_)}
+                if set(cd2) != want2:
+                    bad('sub-of-range-result', 'cells', '(a:b) - %s -> areas %s' % (nm_, area_names(D2)))
+                elif cd2 and max(cd2.values()) > 1:
+                    bad('sub-of-range-result', 'cells-dup', '(a:b) - %s -> areas %s' % (nm_, area_names(D2)))
+                I2 = S2 & build(other, sa, values=False)
+                if set(area_multiset(I2)) != {(sa.upper(), c, r) for (s_, c, r) in set(O_)}:
+                    bad('and-of-range-result', 'cells', '(a:b) %s -> areas %s' % (nm_, area_names(I2)))
+        except Exception as ex:  # noqa
+            bad('sub-of-range-result', 'raised:%s' % type(ex).__name__, repr(ex)[:120])
     # simplify: same cell set, no duplicates (the set may span two sheets)
     if True:
         both = build(case['a'], sa, values=False) | build(case['b'], sb, values=False)
@@ -470,7 +514,37 @@ def check_whole(case):
             gotc[c] += 1
     if set(gotc) != win(ea) - win(eb) or (gotc and max(gotc.values()) > 1):
         fails.append(('sub|whole|cells', '%s - %s -> %s' % (name(a), name(b), area_names(D))))
-    return R(fails, nt=True, n=3, labels=['whole'])
+    # simplification of the union: the same cells, each once
+    has_row = a[0] is None or b[0] is None
+    try:
+        if has_row and not case.get('simplify_rows'):
+            raise StopIteration
+        Sm = (ra | rb).simplify()
+        gotc = collections.Counter()
+        for a_ in areas(Sm):
+            for c in win(a_[1:]):
+                gotc[c] += 1
+        if set(gotc) != win(ea) | win(eb):
+            fails.append(('simplify|whole|cells', '(%s, %s).simplify() -> %s' % (name(a), name(b), area_names(Sm))))
+        elif gotc and max(gotc.values()) > 1:
+            fails.append(('simplify|whole|cells-dup', '(%s, %s).simplify() -> %s' % (name(a), name(b), area_names(Sm))))
+    except StopIteration:
+        pass
+    except Exception as ex:  # noqa
+        fails.append(('simplify|whole|raised:%s' % type(ex).__name__, '(%s, %s).simplify() raised %r' % (name(a), name(b), ex)))
+    # an operator result is an operand like any other: (a : b) - a  and  (a : b) - b
+    for sub_, es in ((ra, ea), (rb, eb)):
+        try:
+            D2 = (mk_noval(a) + mk_noval(b)) - sub_
+            gotc = collections.Counter()
+            for a_ in areas(D2):
+                for c in win(a_[1:]):
+                    gotc[c] += 1
+            if set(gotc) != win(bb) - win(es) or (gotc and max(gotc.values()) > 1):
+                fails.append(('sub|whole-of-range-result|cells', '(%s:%s) - %s -> %s' % (name(a), name(b), area_names(sub_), area_names(D2))))
+        except Exception as ex:  # noqa
+            fails.append(('sub|whole-of-range-result|raised:%s' % type(ex).__name__, '(%s:%s) - %s raised %r' % (name(a), name(b), area_names(sub_), ex)))
+    return R(fails, nt=True, n=6, labels=['whole'])
 
 
 def check_formula_multi(case):
@@ -528,8 +602,11 @@ def _whole(tier):
     rowr = span.map(lambda s: [None, s[0], None, s[1]])
     rect = _rect(9)
     any_ = st.one_of(colr, rowr, rect)
-    return st.builds(lambda a, b: {'k': 'whole', 'a': a, 'b': b}, st.one_of(colr, rowr), any_) | \
-        st.builds(lambda a, b: {'k': 'whole', 'a': a, 'b': b}, any_, st.one_of(colr, rowr))
+    # simplify() of a union holding a whole row cuts it into 16384 column slices (seconds): asked for one case in `every`
+    every = 12 if tier == 'quick' else 40
+    mk_ = lambda a, b, k: {'k': 'whole', 'a': a, 'b': b, 'simplify_rows': k == 0}
+    return st.builds(mk_, st.one_of(colr, rowr), any_, st.integers(0, every - 1)) | \
+        st.builds(mk_, any_, st.one_of(colr, rowr), st.integers(0, every - 1))
 
 
 def _formula(tier):
